@@ -117,8 +117,8 @@ SUITES["struct5s"] = {
     "cfg": {"N": 5, "T": 4, "dims": [], "scale": [], "use_scale": True, "reg_cust": False,
             "per_axis_pos": False, "name": "struct5s"},
     "kinds": [1, 2, 3, 4, 5, 6], "seeds": "SeedsStruct5s",
-    "depth": {"quick": 0, "thorough": 1}, "maxid": 12,
-    "design_depth": {"quick": 0, "thorough": 0}, "sample": {"quick": 50, "thorough": 3000},
+    "depth": {"quick": 1, "thorough": 2}, "maxid": 12,
+    "design_depth": {"quick": 0, "thorough": 0}, "sample": {"quick": 120, "thorough": 3000}, "cat_workers": 8,
 }
 SUITES["struct5"] = dict(SUITES["struct5s"])        # universe of the random sessions
 SUITES["seg6s"] = _seg_suite("seg6s", [1, 3], "D_1x3", [1, 1], "S_11", depth=(0, 1), sample={"quick": 20, "thorough": 1500})
@@ -279,12 +279,16 @@ def catalogue(suite, tier, scratch, seed, log):
     depth = suite["depth"][tier]
     full = cached("cat", [mc_constants(suite, depth, True), suite.get("simulate", {}).get(tier)],
                   lambda: _catalogue(suite, tier, scratch, log))
-    paths = full["paths"]
+    paths = sorted(full["paths"], key=len)      # shortest first (multi-worker emission is not in BFS order)
     total = len(paths)
     sample = suite.get("sample", {}).get(tier)
     if sample and total > sample:
+        # the catalogue is emitted in BFS order: the shortest paths (initial state, seeds, their direct
+        # successors) are ALWAYS kept - they are the states whose validity does not depend on earlier calls -
+        # and the rest is sampled
+        head = min(40, sample // 2)
         rnd = random.Random(seed)
-        keep = sorted(rnd.sample(range(total), sample))
+        keep = list(range(head)) + sorted(rnd.sample(range(head, total), sample - head))
         paths = [paths[i] for i in keep]
     info = dict(full["info"])
     info.update({"catalogue_used": len(paths), "from_cache": full["from_cache"]})
